@@ -25,6 +25,7 @@ func init() {
 			{ID: "C12.4", Desc: "delta-seconds saturation", Run: func(c *Ctx) { ruleSaturation(c, "C12.4") }, MinSites: 2},
 			{ID: "C12.5", Desc: "empty elements skipped, optional whitespace trimmed", Run: ruleC12_5, MinSites: 2},
 			{ID: "C12.6", Desc: "one tokenizer for request and response directives", Run: ruleC12_6, MinSites: 1},
+			{ID: "C12.8", Desc: "saturated delta-seconds stay saturated in later sums", Run: func(c *Ctx) { ruleDurationSums(c, "C12.8") }, MinSites: 2},
 			{ID: "C12.7", Desc: "in the list splitter an escaped character is consumed before quotes and commas are interpreted", Run: ruleC12_7, MinSites: 1},
 		},
 	})
@@ -231,7 +232,9 @@ func ruleC12_3(c *Ctx) {
 	// decoder: raw Value() that parses an integer
 	var dec *ssa.Function
 	for fn := range c.A.RawValue {
-		if callsWhere(fn, func(cc *ssa.CallCommon) bool { return callIsPkgFunc(cc, "strconv", "ParseInt") || callIsPkgFunc(cc, "strconv", "Atoi") || callIsPkgFunc(cc, "strconv", "ParseUint") }) {
+		if callsWhere(fn, func(cc *ssa.CallCommon) bool {
+			return callIsPkgFunc(cc, "strconv", "ParseInt") || callIsPkgFunc(cc, "strconv", "Atoi") || callIsPkgFunc(cc, "strconv", "ParseUint")
+		}) {
 			dec = fn
 		}
 	}
@@ -328,46 +331,65 @@ func ruleC12_5(c *Ctx) {
 	yp := split.Params[0]
 	n := 0
 	bad := ""
-	instrsOf(split, func(in ssa.Instruction) {
-		call := callOf(in)
-		if call == nil || call.Value != yp {
-			return
+	isYield := func(v ssa.Value) bool {
+		if v == ssa.Value(yp) {
+			return true
 		}
-		n++
-		arg := call.Args[0]
-		trimmed := c.An.dependsOnCall(arg, func(cc *ssa.Call) bool {
-			return callIsPkgFunc(&cc.Call, "net/textproto", "TrimString") || callIsPkgFunc(&cc.Call, "strings", "TrimSpace") || callIsPkgFunc(&cc.Call, "strings", "Trim")
-		})
-		if !trimmed {
-			bad = c.P.InstrPos(in) + ": yielded element is not trimmed"
-			return
+		if _, isSig := v.Type().Underlying().(*types.Signature); !isSig {
+			return false
 		}
-		nonEmpty := false
-		for _, dc := range dominatingConds(in.Block()) {
-			b, ok := dc.cond.(*ssa.BinOp)
-			if !ok {
-				continue
+		// the yield function captured by a local helper closure
+		roots := c.P.Roots(v, TraceOpts{NoParams: true})
+		return len(roots) == 1 && roots[0] == ssa.Value(yp)
+	}
+	var scope []*ssa.Function
+	for _, g := range c.reachableFrom(split) {
+		if g == split || lexicallyInside(g, split) {
+			scope = append(scope, g)
+		}
+	}
+	for _, g := range scope {
+		instrsOf(g, func(in ssa.Instruction) {
+			call := callOf(in)
+			if call == nil || call.IsInvoke() || call.StaticCallee() != nil || !isYield(call.Value) {
+				return
 			}
-			// len(p) > 0 (true edge) / len(p) == 0 (false edge) / p != ""
-			op := b.Op
-			if !dc.onTrue {
-				op = negTok(op)
+			n++
+			arg := call.Args[0]
+			trimmed := c.An.dependsOnCall(arg, func(cc *ssa.Call) bool {
+				return callIsPkgFunc(&cc.Call, "net/textproto", "TrimString") || callIsPkgFunc(&cc.Call, "strings", "TrimSpace") || callIsPkgFunc(&cc.Call, "strings", "Trim")
+			})
+			if !trimmed {
+				bad = c.P.InstrPos(in) + ": yielded element is not trimmed"
+				return
 			}
-			if call, ok := b.X.(*ssa.Call); ok {
-				if bi, ok := call.Call.Value.(*ssa.Builtin); ok && bi.Name() == "len" && c.An.sameCanon(call.Call.Args[0], arg) {
-					if k, ok := constInt(b.Y); ok && ((op == token.GTR && k == 0) || (op == token.NEQ && k == 0) || (op == token.GEQ && k == 1)) {
-						nonEmpty = true
+			nonEmpty := false
+			for _, dc := range dominatingConds(in.Block()) {
+				b, ok := dc.cond.(*ssa.BinOp)
+				if !ok {
+					continue
+				}
+				// len(p) > 0 (true edge) / len(p) == 0 (false edge) / p != ""
+				op := b.Op
+				if !dc.onTrue {
+					op = negTok(op)
+				}
+				if call, ok := b.X.(*ssa.Call); ok {
+					if bi, ok := call.Call.Value.(*ssa.Builtin); ok && bi.Name() == "len" && c.An.sameCanon(call.Call.Args[0], arg) {
+						if k, ok := constInt(b.Y); ok && ((op == token.GTR && k == 0) || (op == token.NEQ && k == 0) || (op == token.GEQ && k == 1)) {
+							nonEmpty = true
+						}
 					}
 				}
+				if s, ok := constStr(b.Y); ok && s == "" && op == token.NEQ && c.An.sameCanon(b.X, arg) {
+					nonEmpty = true
+				}
 			}
-			if s, ok := constStr(b.Y); ok && s == "" && op == token.NEQ && c.An.sameCanon(b.X, arg) {
-				nonEmpty = true
+			if !nonEmpty {
+				bad = c.P.InstrPos(in) + ": element may be empty when yielded"
 			}
-		}
-		if !nonEmpty {
-			bad = c.P.InstrPos(in) + ": element may be empty when yielded"
-		}
-	})
+		})
+	}
 	if n == 0 {
 		c.Undecided("C12.5", "splitter", desc, "no yield call in "+c.P.ShortName(split))
 	} else if bad != "" {
